@@ -180,6 +180,25 @@ pub fn c05_case(text: &[u8], op: &SOp, out: &mut Vec<Violation>) -> u64 {
 				(b.as_bytes().to_vec(), parts_of_riref_accessors(&b))
 			}
 		});
+		// the same call on a buffer with spare capacity (no reallocation on growth)
+		let r_spare = guard(|| {
+			if use_ri {
+				let mut b = ribuf_spare(text).expect("valid buffer");
+				apply_setter_ri(&mut b, op);
+				b.as_bytes().to_vec()
+			} else {
+				let mut b = rirefbuf_spare(text).expect("valid buffer");
+				apply_setter_riref(&mut b, op);
+				b.as_bytes().to_vec()
+			}
+		});
+		if let (Guard::Ok((t, _)), g2) = (&r, &r_spare) {
+			match g2 {
+				Guard::Ok(t2) if t2 == t => {}
+				Guard::Ok(t2) => out.push(mk("spare-capacity").obs(format!("{:?}", lossy(t2))).exp(format!("{:?} (exact-capacity buffer)", lossy(t)))),
+				Guard::Panic(pm) => out.push(mk("panic").feat("panic_at", panic_site(pm)).obs(format!("spare capacity: panic: {pm}")).exp("no panic")),
+			}
+		}
 		match r {
 			Guard::Ok((t, acc)) => {
 				let kind = if use_ri { Kind::Ri } else { Kind::RiRef };
